@@ -1,7 +1,10 @@
 ------------------------------ MODULE C07_Trace ------------------------------
 (* Trace validation for C07.
    Select     one call of whatshap.readselect.readselection:
-              reads (sequence of sorted index sequences), k, sel (returned read numbers)
+              reads (sequence of sorted index sequences), k, sel (returned read numbers);
+              posmap names how the driver placed the indices on coordinates (first
+              variant on position 0, last on 2^31-1, ...): the relation is stated in
+              the index space, so the clauses hold for every placement
    FamilyCap  the reads `whatshap phase` handed to the exact solver for one
               family (H1 hook): reads as index sequences over the accessible
               positions, k = --internal-downsampling, members = family size *)
